@@ -627,25 +627,28 @@ impl<'input> Tokenizer<'input> {
 
     fn char_literal(&mut self, start: Location) -> Result<SpannedToken<'input>, SpError> {
         let ch = match self.bump() {
-            Some((start, b'\\')) => self.escape_code(start)?,
+            Some((start, b'\\')) => self.escape_code(start)? as char,
             Some((end, b'\'')) => {
                 return self.recover(start, end, EmptyCharLiteral, Token::CharLiteral('\0'));
             }
-            Some((_, ch)) => ch,
+            Some((_, b)) => {
+                // `b` may only be the first byte of the character, the rest is still unread
+                let ch = self.chars.chars.as_str_suffix().restore_char(&[b]);
+                for _ in 1..ch.len_utf8() {
+                    self.bump();
+                }
+                ch
+            }
             None => return self.eof_recover(Token::CharLiteral('\0')),
         };
 
         match self.bump() {
-            Some((_, b'\'')) => {
-                let ch = self.chars.chars.as_str_suffix().restore_char(&[ch]);
-                Ok(pos::spanned2(
-                    start,
-                    self.next_loc(),
-                    Token::CharLiteral(ch),
-                ))
-            }
+            Some((_, b'\'')) => Ok(pos::spanned2(
+                start,
+                self.next_loc(),
+                Token::CharLiteral(ch),
+            )),
             Some((end, _)) => {
-                let ch = self.chars.chars.as_str_suffix().restore_char(&[ch]);
                 self.recover(start, end, UnterminatedCharLiteral, Token::CharLiteral(ch))
             } // UnexpectedEscapeCode?
             None => self.eof_recover(Token::CharLiteral('\0')),
@@ -836,6 +839,10 @@ impl<'input> Iterator for Tokenizer<'input> {
 
                 ch => {
                     let ch = self.chars.chars.as_str_suffix().restore_char(&[ch]);
+                    // Skip the rest of a multi-byte character
+                    for _ in 1..ch.len_utf8() {
+                        self.bump();
+                    }
                     let end = self.next_loc();
                     if let Err(err) = self.recover(start, end, UnexpectedChar(ch), ()) {
                         return Some(Err(err));
